@@ -94,6 +94,8 @@ pub struct StatusChannelReceiver<T> {
 impl<T> StatusChannelSender<T> {
   /// Best-effort send. If there is no receiver, this will fail silently.
   pub fn try_send(&self, t: T) -> Result<(), mio_channel::TrySendError<T>> {
+    #[cfg(rustdds_verif)]
+    crate::verif::sched::yp_lock("sl0", "sl0!", &self.waker);
     let mut w = self.waker.lock().unwrap(); // lock already at the beginning
     match self.actual_sender.try_send(t) {
       Ok(()) => {
@@ -229,6 +231,8 @@ impl<T> Stream for StatusReceiverStream<'_, T> {
     match self.sync_receiver.try_recv() {
       Err(std::sync::mpsc::TryRecvError::Empty) => {
         // nothing available
+        #[cfg(rustdds_verif)]
+        crate::verif::sched::yp("sr1");
         *w = Some(cx.waker().clone());
         Poll::Pending
       }
